@@ -131,10 +131,10 @@ func checkOne(c *fw.Ctx, a eval.Score) {
 
 func init() {
 	fw.Register(&fw.Monitor{
-		ID:        "C09",
-		Level:     "exploration",
-		Technique: "runtime oracle over an enumerated score domain: every pair (and triples) compared with an independent rank function",
-		Rule: "core domain = lost, won, mate k for all 255 non-zero int8 k, ~110 representative float32 values incl. +-0, subnormals, neighbours, +-MaxFloat32, +-Inf; all ordered pairs of the core are checked (Less vs rank function, negation reversal, increment invariance, Max/Min), all triples of the decided/mate sub-domain for transitivity (thorough; sampled in quick), plus random float32 bit patterns against the core; distinct = distinct ordered pairs",
+		ID:          "C09",
+		Level:       "exploration",
+		Technique:   "runtime oracle over an enumerated score domain: every pair (and triples) compared with an independent rank function",
+		Rule:        "core domain = lost, won, mate k for all 255 non-zero int8 k, ~110 representative float32 values incl. +-0, subnormals, neighbours, +-MaxFloat32, +-Inf; all ordered pairs of the core are checked (Less vs rank function, negation reversal, increment invariance, Max/Min), all triples of the decided/mate sub-domain for transitivity (thorough; sampled in quick), plus random float32 bit patterns against the core; distinct = distinct ordered pairs",
 		Assumptions: []string{"NaN is not a score (C20 keeps evaluations finite)"},
 		Exhaustive:  func(string) bool { return true },
 		Workers:     16,
